@@ -19,11 +19,13 @@ import (
 func init() { checks["C06"] = runC06 }
 
 type cfStmt struct {
-	kind string // act seq ite ift loop forever brk cont
+	kind string // act seq ite ift loop forever brk cont sw
 	n    int    // act id / cond id
 	p    int    // post act id (0 = none)
 	init int    // init act id for 3-clause loops (0 = none)
 	a, b *cfStmt
+	cs   []*cfStmt // sw: the clauses {n: cond id, a: body}; b: the default body (nil: none)
+	dpos int       // sw: where the default clause is written
 }
 
 type cfGen struct {
@@ -33,35 +35,57 @@ type cfGen struct {
 
 func (g *cfGen) id() int { g.next++; return g.next }
 
-func (g *cfGen) gen(depth int, inLoop bool) *cfStmt {
+func (g *cfGen) gen(depth int, inLoop bool) *cfStmt { return g.gen2(depth, inLoop, false) }
+
+// gen2: inSw — directly or indirectly inside a switch clause (a break is allowed: it leaves the switch)
+func (g *cfGen) gen2(depth int, inLoop, inSw bool) *cfStmt {
 	r := g.r
 	k := r.Intn(100)
-	if depth <= 0 {
-		if inLoop && k < 25 {
+	jump := func() *cfStmt {
+		if inLoop && (r.Bool() || !inSw) {
 			return &cfStmt{kind: Pick(r, []string{"brk", "cont"})}
+		}
+		return &cfStmt{kind: "brk"}
+	}
+	if depth <= 0 {
+		if (inLoop || inSw) && k < 25 {
+			return jump()
 		}
 		return &cfStmt{kind: "act", n: g.id()}
 	}
+	if k >= 85 && k < 92 && r.Bool() { // switch with 1..3 clauses and an optional default
+		s := &cfStmt{kind: "sw"}
+		for i := 1 + r.Intn(3); i > 0; i-- {
+			s.cs = append(s.cs, &cfStmt{kind: "case", n: g.id(), a: g.gen2(depth-1, inLoop, true)})
+		}
+		if r.Intn(5) > 1 {
+			s.b = g.gen2(depth-1, inLoop, true)
+			s.dpos = r.Intn(len(s.cs) + 1)
+		}
+		return s
+	}
+	inSwHere := inSw
+	_ = inSwHere
 	switch {
 	case k < 15:
 		return &cfStmt{kind: "act", n: g.id()}
 	case k < 40:
-		return &cfStmt{kind: "seq", a: g.gen(depth-1, inLoop), b: g.gen(depth-1, inLoop)}
+		return &cfStmt{kind: "seq", a: g.gen2(depth-1, inLoop, inSw), b: g.gen2(depth-1, inLoop, inSw)}
 	case k < 55:
-		return &cfStmt{kind: "ite", n: g.id(), a: g.gen(depth-1, inLoop), b: g.gen(depth-1, inLoop)}
+		return &cfStmt{kind: "ite", n: g.id(), a: g.gen2(depth-1, inLoop, inSw), b: g.gen2(depth-1, inLoop, inSw)}
 	case k < 68:
-		return &cfStmt{kind: "ift", n: g.id(), a: g.gen(depth-1, inLoop)}
+		return &cfStmt{kind: "ift", n: g.id(), a: g.gen2(depth-1, inLoop, inSw)}
 	case k < 85:
-		s := &cfStmt{kind: "loop", n: g.id(), a: g.gen(depth-1, true)}
+		s := &cfStmt{kind: "loop", n: g.id(), a: g.gen2(depth-1, true, false)}
 		if r.Bool() {
 			s.init, s.p = g.id(), g.id()
 		}
 		return s
 	case k < 92:
-		return &cfStmt{kind: "forever", a: g.gen(depth-1, true)}
+		return &cfStmt{kind: "forever", a: g.gen2(depth-1, true, false)}
 	default:
-		if inLoop {
-			return &cfStmt{kind: Pick(r, []string{"brk", "cont"})}
+		if inLoop || inSw {
+			return jump()
 		}
 		return &cfStmt{kind: "act", n: g.id()}
 	}
@@ -74,6 +98,10 @@ func (s *cfStmt) guard() *cfStmt {
 	}
 	c := *s
 	c.a, c.b = s.a.guard(), s.b.guard()
+	c.cs = nil
+	for _, k := range s.cs {
+		c.cs = append(c.cs, k.guard())
+	}
 	if c.kind == "loop" || c.kind == "forever" {
 		c.a = &cfStmt{kind: "seq", a: &cfStmt{kind: "ift", n: 999, a: &cfStmt{kind: "brk"}}, b: c.a}
 	}
@@ -119,6 +147,21 @@ func (s *cfStmt) src(sb *strings.Builder) {
 		sb.WriteString("break\n")
 	case "cont":
 		sb.WriteString("continue\n")
+	case "sw":
+		sb.WriteString("switch {\n")
+		for i, k := range s.cs {
+			if s.b != nil && s.dpos == i {
+				sb.WriteString("default:\n")
+				s.b.src(sb)
+			}
+			fmt.Fprintf(sb, "case %s:\n", cond(k.n))
+			k.a.src(sb)
+		}
+		if s.b != nil && s.dpos >= len(s.cs) {
+			sb.WriteString("default:\n")
+			s.b.src(sb)
+		}
+		sb.WriteString("}\n")
 	}
 }
 
@@ -153,6 +196,18 @@ func (s *cfStmt) proto(w *[]string, leaves map[string]bool) {
 		s.a.proto(w, leaves)
 	case "brk", "cont":
 		*w = append(*w, s.kind)
+	case "sw": // swc c1 A1 (swc c2 A2 (… (swd D)))
+		for _, k := range s.cs {
+			*w = append(*w, "swc", fmt.Sprint(k.n))
+			leaves[fmt.Sprintf("c%d", k.n)] = true
+			k.a.proto(w, leaves)
+		}
+		*w = append(*w, "swd")
+		if s.b != nil {
+			s.b.proto(w, leaves)
+		} else {
+			*w = append(*w, "act", "0") // no default clause: an empty block
+		}
 	}
 }
 
@@ -212,6 +267,19 @@ func (m *cfRun) exec(s *cfStmt) string { // "", "brk", "cont"
 		return "brk"
 	case "cont":
 		return "cont"
+	case "sw": // the first clause whose condition holds, else the default; break leaves the switch only
+		body := s.b
+		for _, k := range s.cs {
+			if m.cond(k.n) {
+				body = k.a
+				break
+			}
+		}
+		if body != nil {
+			if o := m.exec(body); o != "brk" {
+				return o
+			}
+		}
 	}
 	return ""
 }
@@ -313,7 +381,7 @@ func (c *Ctx) c06One(s *cfStmt, sample bool) (lines, impl []string) {
 }
 
 func runC06(c *Ctx) error {
-	c.Rep.Rule = "control skeletons over the forms {simple statement, sequence, if/else, if, for with condition (with and without init/post), for {}, break, continue} with a fuel guard at every loop head: all skeletons of depth <= 2 over a reduced alphabet plus random ones to depth 5; for each: the compiled function body (optimizer off and on) compared with the model's assembly, and the printed trace compared with a native interpreter of Go's semantics; plus Go-toolchain runs of generated programs with switch/range/return; distinct = distinct skeleton; non-trivial = contains a loop with break or continue"
+	c.Rep.Rule = "control skeletons over the forms {simple statement, sequence, if/else, if, for with condition (with and without init/post), for {}, tagless switch with 1..3 clauses and an optional default written at any position, break, continue} with a fuel guard at every loop head: all skeletons of depth <= 2 over a reduced alphabet plus random ones to depth 5; for each: the compiled function body (optimizer off and on) compared with the model's assembly, and the printed trace compared with a native interpreter of Go's semantics; plus Go-toolchain runs of generated programs with switch/range/return; distinct = distinct skeleton; non-trivial = contains a loop with break or continue"
 	n := 300
 	if c.Thorough() {
 		n = 12000
@@ -328,6 +396,13 @@ func runC06(c *Ctx) error {
 		g.src(&sb)
 		body := sb.String()
 		c.Rep.Seen(body, strings.Contains(body, "for") && (strings.Count(body, "break") > strings.Count(body, "for") || strings.Contains(body, "continue")))
+		if strings.Contains(body, "switch {") {
+			c.Rep.Count("skeleton-with-switch")
+			if strings.Contains(body, "for") && strings.Contains(body, "continue") {
+				c.Rep.Count("skeleton-switch-in-loop-with-continue")
+			}
+		}
+		c.Rep.Count("skeletons")
 	}
 	// small exhaustive family: loop bodies made of up to two of {act, brk, cont, if-break, if-else(cont, act)}
 	atoms := func(g *cfGen) []*cfStmt {
